@@ -160,7 +160,7 @@ def short_histories(kind, maxdiv, alphabet, length, rng, limit):
 
 def run(ctx: Ctx):
     thorough = ctx.tier == "thorough"
-    plan = {"cube3D": 4, "ico": 4, "cube4D": 2} if thorough else {"cube3D": 4, "ico": 4, "cube4D": 1}
+    plan = {"cube3D": 4, "ico": 4, "cube4D": 2} if thorough else {"cube3D": 4, "ico": 4, "cube4D": 2}
     ctx.cov["rule"] = ("the complete subdivision history of each polytope (create + every divide_edges up to the level bound), "
                        "every node mapped to exact lattice coordinates, every edge, every get_nodes(N) before/after each "
                        "division; non-trivial = a logged event")
